@@ -13,6 +13,7 @@ import (
 	"fmt"
 	"io"
 	"sort"
+	"strings"
 	"time"
 
 	"verif.local/vs"
@@ -40,13 +41,14 @@ func DialWithTimeout(time.Duration) DialOption { return DialOption{} }
 
 // MemServer is one modelled FTP server (the billing domain's end of the CDR transfer).
 type MemServer struct {
-	Addr   string
-	Files  map[string][]byte
-	Stors  []string // "name:octets" per completed STOR, in order
-	Refuse bool     // new connections are refused
-	Logins int
-	gen    int
-	conns  int
+	Addr     string
+	Files    map[string][]byte
+	Stors    []string // "name:octets" per completed STOR, in order
+	StorData [][]byte // what each of them stored
+	Refuse   bool     // new connections are refused
+	Logins   int
+	gen      int
+	conns    int
 }
 
 var (
@@ -134,6 +136,13 @@ func (c *ServerConn) Login(user, password string) error {
 func (c *ServerConn) NoOp() error { return c.cmd("NOOP", func() error { return nil }) }
 
 func (c *ServerConn) Stor(path string, r io.Reader) error {
+	if strings.ContainsAny(path, "\r\n") {
+		// the command line is "STOR <path>" CRLF: a line break inside the argument ends the command early and the server
+		// reads the rest as further commands (the replies then no longer match the commands the client believes it sent)
+		ftpMon.Do("ftp.inject", c.id, nil, func() {
+			MemOverlaps = append(MemOverlaps, fmt.Sprintf("%s: the argument of STOR %q carries a line break: what follows it is executed by the server as further commands", c.id, path))
+		})
+	}
 	data, rerr := io.ReadAll(r)
 	if rerr != nil {
 		return rerr
@@ -144,6 +153,7 @@ func (c *ServerConn) Stor(path string, r io.Reader) error {
 		}
 		c.srv.Files[path] = data
 		c.srv.Stors = append(c.srv.Stors, fmt.Sprintf("%s:%d", path, len(data)))
+		c.srv.StorData = append(c.srv.StorData, data)
 		return nil
 	})
 }
